@@ -900,14 +900,14 @@ pub fn run(ctx: &Ctx, rep: &mut Report, prop: &str) {
         crate::props::io::mini(ctx, rep, prop);
     }
     let (quick, thorough, per_scenario) = match prop {
-        "c01" => (40_000u64, 400_000u64, 40usize),
-        "c02" => (160_000, 640_000, 40),
+        "c01" => (40_000u64, 160_000u64, 40usize),
+        "c02" => (160_000, 480_000, 40),
         "c03" => (80_000, 320_000, 40),
         "c04" => (48_000, 120_000, 30),
         "c05" => (40_000, 160_000, 0),
         "c07" => (96_000, 400_000, 40),
-        "c08" => (128_000, 512_000, 40),
-        "c09" => (128_000, 512_000, 40),
+        "c08" => (128_000, 384_000, 40),
+        "c09" => (128_000, 384_000, 40),
         _ => unreachable!(),
     };
     let n = if ctx.is_miri() { ctx.cases(4, 160) } else { ctx.cases(quick, thorough) };
